@@ -10,8 +10,8 @@ MCPkgSeq == <<"lib", "main">>
 MCImports == [p \in {"lib", "main"} |-> IF p = "main" THEN {"lib"} ELSE {}]
 MCAsm == {"lib"}
 MCNoAsm == {}
-MCSameCfg == [t \in MCTops |-> "c1"]
-MCDiffCfg == [t \in MCTops |-> t]
+MCSameCfg == [t \in MCTops |-> [p \in {"lib", "main"} |-> "c1"]]
+MCDiffCfg == [t \in MCTops |-> [p \in {"lib", "main"} |-> t]]
 MCReflect == {"lib", "main"}
 MCObf == {"lib", "main"}
 MCEmpty == {}
